@@ -144,6 +144,20 @@ pub fn gen(stream: &str, tier: &str, seed: u64) -> Vec<String> {
                     }
                 }
             }
+            // DEPTH: many levels (a level counter kept in a u8 / u16 wraps at 256 / 65,536 levels)
+            for n in [254usize, 255, 256, 257, 258, 259, 260, 511, 512, 513, 1023, 1024, 1025, 4095, 4096, 32_767] {
+                let deep = vec!["a"; n].join("/");
+                out.push(format!("{} {}", op, hex(deep.as_bytes())));
+                out.push(format!("{} {}", op, hex(format!("$share/g/{}", deep).as_bytes())));
+                out.push(format!("{} {}", op, hex(format!("$share/g/{}/#", deep).as_bytes())));
+                out.push(format!("{} {}", op, hex(format!("{}/+", deep).as_bytes())));
+                out.push(format!("{} {}", op, hex("/".repeat(n).as_bytes())));
+                out.push(format!("{} {}", op, hex(format!("$share/g/{}", "/".repeat(n)).as_bytes())));
+            }
+            for n in [65_526usize, 65_527, 65_534, 65_535] {
+                out.push(format!("{} {}", op, hex("/".repeat(n).as_bytes())));
+                out.push(format!("{} {}", op, hex(format!("$share/g/{}", "/".repeat(n - 9)).as_bytes())));
+            }
             // characters an implementation might treat specially (BOM, non-characters, white space, …) at the
             // start, inside and at the end of representative texts
             for sp in crate::pgen::SPECIALS {
@@ -309,6 +323,16 @@ pub fn gen(stream: &str, tier: &str, seed: u64) -> Vec<String> {
         }
         "v3dec" | "v3poll" | "v3fault" => {
             if stream == "v3dec" {
+                // the grid sweeps as FRAMES (valid, so every decoder and the specification must accept them)
+                for p in crate::pgen::sweep_v3(thorough) {
+                    if let Ok(e) = p.encode() {
+                        let e = e.as_ref();
+                        if e.len() <= 40_000 {
+                            out.push(format!("dec v3 {}", hex(e)));
+                            out.push(format!("poll v3 {} - eof", hex(e)));
+                        }
+                    }
+                }
                 for t in lookalike_topics() {
                     for f in topic_frames(true, &t) {
                         out.push(format!("dec v3 {}", hex(&f)));
@@ -431,6 +455,16 @@ pub fn gen(stream: &str, tier: &str, seed: u64) -> Vec<String> {
         }
         "v5dec" | "v5poll" | "v5fault" => {
             if stream == "v5dec" {
+                // the grid sweeps as FRAMES (valid, so every decoder and the specification must accept them)
+                for p in crate::pgen::sweep_v5(thorough) {
+                    if let Ok(e) = p.encode() {
+                        let e = e.as_ref();
+                        if e.len() <= 40_000 {
+                            out.push(format!("dec v5 {}", hex(e)));
+                            out.push(format!("poll v5 {} - eof", hex(e)));
+                        }
+                    }
+                }
                 for t in lookalike_topics() {
                     for f in topic_frames(false, &t) {
                         out.push(format!("dec v5 {}", hex(&f)));
@@ -596,6 +630,60 @@ pub fn gen(stream: &str, tier: &str, seed: u64) -> Vec<String> {
                     } else {
                         out.push(format!("dec {} {}", fam, hex(&f)));
                         out.push(format!("poll {} {} - eof", fam, hex(&f)));
+                    }
+                }
+            }
+            // CONNECT whose body does NOT match its flags although the remaining length is consistent: the last
+            // field the flags call for is missing / one more field than called for is present; alone and followed
+            // by bytes that look like a short length-prefixed field (a lenient reader might take them for it)
+            for (name, level) in levels {
+                for b in 0..=255u8 {
+                    let mut fields: Vec<Vec<u8>> = Vec::new();
+                    fields.push(vec![0, 1, b'c']);
+                    if b & 4 != 0 {
+                        if !v3 {
+                            fields.push(vec![0]);
+                        }
+                        fields.push(vec![0, 1, b'w']);
+                        fields.push(vec![0, 1, b'm']);
+                    }
+                    if b & 0x80 != 0 {
+                        fields.push(vec![0, 1, b'u']);
+                    }
+                    if b & 0x40 != 0 {
+                        fields.push(vec![0, 1, b'p']);
+                    }
+                    for variant in 0..2 {
+                        let mut fs = fields.clone();
+                        if variant == 0 {
+                            if fs.len() < 2 {
+                                continue;
+                            }
+                            fs.pop();
+                        } else {
+                            fs.push(vec![0, 1, b'x']);
+                        }
+                        let mut body = vec![0, name.len() as u8];
+                        body.extend_from_slice(name);
+                        body.extend_from_slice(&[*level, b, 0, 10]);
+                        if !v3 {
+                            body.push(0);
+                        }
+                        for f in &fs {
+                            body.extend_from_slice(f);
+                        }
+                        let mut f = vec![0x10, body.len() as u8];
+                        f.extend_from_slice(&body);
+                        for tail in [&[][..], &[0, 2, b'h', b'i'][..], &[0, 0][..]] {
+                            let mut g = f.clone();
+                            g.extend_from_slice(tail);
+                            if as_spec {
+                                out.push(format!("spec {} {}", fam, hex(&g)));
+                            } else {
+                                out.push(format!("dec {} {}", fam, hex(&g)));
+                                out.push(format!("poll {} {} - eof", fam, hex(&g)));
+                            }
+                        }
                     }
                 }
             }
@@ -1050,7 +1138,7 @@ fn props_frame(rng: &mut Rng, host: &str, i: usize) -> Vec<u8> {
             ids.push(*rng.pick(&STD_IDS));
         }
     }
-    for _ in 0..rng.below(3) {
+    for _ in 0..(if rng.chance(1, 4) { 3 + rng.below(6) } else { rng.below(3) }) {
         ids.push(0x26);
     }
     // random order
@@ -1063,7 +1151,23 @@ fn props_frame(rng: &mut Rng, host: &str, i: usize) -> Vec<u8> {
         props.extend(random_property(rng, id));
     }
     let mut section = Vec::new();
-    put_varint(&mut section, props.len());
+    // one frame in six declares a property length that is WRONG by a few bytes (the section then ends inside
+    // or beyond its last property; the rest of the packet is laid out as if the length were right)
+    let declared = if rng.chance(1, 6) { (props.len() as i64 + *rng.pick(&[-9i64, -7, -4, -3, -2, -1, 1, 2, 5])).max(0) as usize } else { props.len() };
+    put_varint(&mut section, declared);
+    if rng.chance(1, 5) {
+        // the property length spelled NON-MINIMALLY (padded with 80…00): tolerated by the codec
+        let last = section.len() - 1;
+        if section.len() < 4 {
+            section[last] |= 0x80;
+            for k in 0..(1 + rng.below((4 - section.len()) as u64) as usize) {
+                let _ = k;
+                section.push(0x80);
+            }
+            let l2 = section.len() - 1;
+            section[l2] = 0x00;
+        }
+    }
     section.extend_from_slice(&props);
     let reason: u8 = if rng.chance(1, 8) {
         3 // in no reason-code table
